@@ -1,5 +1,6 @@
 import AtreeProofs.MapInv
 import AtreeProofs.MapLemmas
+import AtreeProofs.Map.TreeBasics
 /-
   C12 — Maps stay correct under arbitrary hash collisions and enforce the limit.
   C02's theorems already hold for EVERY digest function; this file adds the collision-limit
@@ -41,7 +42,7 @@ theorem limit_allows_update_and_room (T : Nat) (hT : legalThreshold T = true) (D
     identical digest vectors (full collisions) keep their relative order of insertion, which is the
     order of `toList` (the insertion-ordered list at the last level only ever appends). -/
 theorem order_canonical (T : Nat) (D : DigestFn (r + 1)) (m : OMap r) (h : MapInv T D m) :
-    (m.toList.map (fun p => p.1.digs)).Pairwise (fun a b => a = b ∨ List.Lex (· < ·) a b) := by
-  sorry
+    (m.toList.map (fun p => p.1.digs)).Pairwise (fun a b => a = b ∨ List.Lex (· < ·) a b) :=
+  MTreeInv.ordered m.d true m.root h.tree
 
 end Atree.C12
